@@ -28,8 +28,12 @@ type G struct {
 	// generated name gets a fresh suffix counted from here.
 	Uniq    *int
 	UniqPct int
+	pending int // items promised by nItems and not yet counted in Items
 	// Plain biases toward attribute-free items (cheap, large batches).
 	Plain bool
+	// Budget, when > 0, bounds the items of the whole batch (the round-trip
+	// domain allows at most 65,535 id-bearing parents per table).
+	Budget int
 	// summary of what was generated (for samples)
 	Items int
 }
@@ -228,10 +232,20 @@ func (g *G) schemaURL() string {
 
 func (g *G) nContainers() int { return g.w(1, 5, 3, 2, 1) }
 func (g *G) nItems() int {
+	n := 0
 	if g.MaxItems <= 0 {
-		return g.w(1, 3, 3, 2, 2, 1, 1)
+		n = g.w(1, 3, 3, 2, 2, 1, 1)
+	} else {
+		n = g.d(g.MaxItems + 1)
 	}
-	return g.d(g.MaxItems + 1)
+	if g.Budget > 0 && g.Items+g.pending+n > g.Budget {
+		n = g.Budget - g.Items - g.pending
+		if n < 0 {
+			n = 0
+		}
+	}
+	g.pending += n
+	return n
 }
 
 func (g *G) Traces() ptrace.Traces {
@@ -250,6 +264,7 @@ func (g *G) Traces() ptrace.Traces {
 			for k := 0; k < n; k++ {
 				g.span(ss.Spans().AppendEmpty())
 				g.Items++
+				g.pending--
 			}
 		}
 	}
@@ -330,6 +345,7 @@ func (g *G) Logs() plog.Logs {
 			for k := 0; k < n; k++ {
 				g.logRecord(sl.LogRecords().AppendEmpty())
 				g.Items++
+				g.pending--
 			}
 		}
 	}
@@ -377,6 +393,7 @@ func (g *G) Metrics() pmetric.Metrics {
 			for k := 0; k < n; k++ {
 				g.metric(sm.Metrics().AppendEmpty())
 				g.Items++
+				g.pending--
 			}
 		}
 	}
